@@ -12,7 +12,14 @@ import (
 	"time"
 
 	"github.com/AdguardTeam/AdGuardDNS/internal/dnsserver/ratelimit"
+	"github.com/AdguardTeam/AdGuardDNS/internal/access"
+	"github.com/AdguardTeam/AdGuardDNS/internal/agd"
+	"github.com/AdguardTeam/AdGuardDNS/internal/agdpasswd"
+	"github.com/AdguardTeam/AdGuardDNS/internal/dnsmsg"
+	"github.com/AdguardTeam/AdGuardDNS/internal/dnsserver"
+	"github.com/AdguardTeam/AdGuardDNS/internal/filter"
 	"github.com/AdguardTeam/AdGuardDNS/verifh/hlib"
+	"github.com/AdguardTeam/AdGuardDNS/verifh/hlib/stack"
 	"github.com/c2h5oh/datasize"
 	"github.com/miekg/dns"
 )
@@ -29,6 +36,7 @@ func main() {
 
 	counterCampaign(o, r, m)
 	backoffCampaign(o, r, m)
+	mwCampaign(o, r, m)
 	backoffExpiryFinding(o, r)
 
 	r.ModelOps = r.Evaluations
@@ -126,17 +134,18 @@ func runCounterCase(r *hlib.Result, m *hlib.Model, num uint, ivl int64, ts []int
 		} else {
 			passes++
 		}
-		if b2s(got) != want {
-			r.Disagree("counter", fmt.Sprintf("RequestCounter.Add=%v model=%s at step %d", got, want, j),
-				map[string]any{"campaign": "counter", "ops": lines[:j+2]})
-
-			break
-		}
+		// The property oracle runs first and independently of the model.
 		if got != spec {
 			r.Violate("counter-window", fmt.Sprintf(
 				"limit %d interval %d: event %d at %d has %d earlier events in window but above=%v",
 				num, ivl, j, t, inWin, got),
 				map[string]any{"campaign": "counter", "num": num, "ivl": ivl, "stamps": ts[:j+1]})
+
+			break
+		}
+		if b2s(got) != want {
+			r.Disagree("counter", fmt.Sprintf("RequestCounter.Add=%v model=%s at step %d", got, want, j),
+				map[string]any{"campaign": "counter", "ops": lines[:j+2]})
 
 			break
 		}
@@ -438,6 +447,9 @@ func stripTimes(log []string) (out []string) {
 		if len(f) > 2 && (f[0] == "req" || f[0] == "resp") {
 			f[1] = "t"
 		}
+		if len(f) > 3 && f[0] == "mw" {
+			f[2] = "t"
+		}
 		out = append(out, strings.Join(f, " "))
 	}
 
@@ -474,3 +486,151 @@ func backoffExpiryFinding(o *hlib.Opts, r *hlib.Result) {
 				"so the window is forgotten", map[string]any{"verdicts": verdicts, "period_ms": 300, "ivl_s": 10, "limit": 2})
 	}
 }
+
+// mwCampaign drives the production middleware stack (ratelimitmw behind
+// dnssvc.NewHandlers) with the real Backoff as the global limiter and a
+// profile with its own limiter recognised through its linked IP.
+func mwCampaign(o *hlib.Opts, r *hlib.Result, m *hlib.Model) {
+	rng := o.Rand("mw")
+	n := 150
+	if o.Thorough() {
+		n = 2000
+	}
+	ctx := context.Background()
+	for i := 0; i < n; i++ {
+		c := genCfg(rng)
+		c.est = uint64(100 + rng.IntN(3)*100)
+		lim := c.real()
+		profIP := netip.MustParseAddr("10.0.0.1")
+		var profLim agd.Ratelimiter = agd.GlobalRatelimiter{}
+		profLine := "noprof"
+		hasProf := rng.IntN(3) > 0
+		if hasProf && rng.IntN(3) > 0 {
+			rc := &agd.RatelimitConfig{RPS: uint32(rng.IntN(4)), Enabled: true}
+			for k := rng.IntN(3); k > 0; k-- {
+				rc.ClientSubnets = append(rc.ClientSubnets, genPrefix(rng))
+			}
+			profLim = agd.NewDefaultRatelimiter(rc, datasize.ByteSize(c.est))
+			profLine = fmt.Sprintf("prof %d %d", rc.RPS, c.est)
+			for _, p := range rc.ClientSubnets {
+				profLine += " " + prefArgs(p)
+			}
+		}
+		dev := &agd.Device{Auth: &agd.AuthSettings{PasswordHash: agdpasswd.AllowAuthenticator{}}, ID: "dev1234",
+			LinkedIP: profIP, FilteringEnabled: true}
+		prof := &agd.Profile{
+			FilterConfig: &filter.ConfigClient{Custom: &filter.ConfigCustom{}, Parental: &filter.ConfigParental{},
+				RuleList: &filter.ConfigRuleList{}, SafeBrowsing: &filter.ConfigSafeBrowsing{}},
+			Access: access.EmptyProfile{}, BlockingMode: &dnsmsg.BlockingModeNullIP{}, Ratelimiter: profLim,
+			ID: "prof1234", DeviceIDs: []agd.DeviceID{"dev1234"}, FilteredResponseTTL: 10 * time.Second,
+			FilteringEnabled: true,
+		}
+		pdb := stack.NotFoundProfileDB()
+		if hasProf {
+			pdb.OnProfileByLinkedIP = func(_ context.Context, ip netip.Addr) (*agd.Profile, *agd.Device, error) {
+				if ip == profIP {
+					return prof, dev, nil
+				}
+
+				return nil, nil, fmt.Errorf("not found: %w", errNotFound)
+			}
+		}
+		var respLen int
+		srvDNS := stack.NewServer("dns", agd.ProtoDNS, true)
+		srvDoT := stack.NewServer("dot", agd.ProtoDoT, true, &agd.ServerBindData{AddrPort: netip.MustParseAddrPort("192.0.2.2:853")})
+		st := stack.New(&stack.Config{
+			RateLimit: lim,
+			ProfileDB: pdb,
+			Servers:   []*agd.Server{srvDNS, srvDoT},
+			Upstream: dnsserver.HandlerFunc(func(ctx context.Context, rw dnsserver.ResponseWriter, req *dns.Msg) error {
+				if respLen < 0 {
+					return nil
+				}
+
+				return rw.WriteMsg(ctx, req, mkResp(req.Question[0].Qtype, respLen))
+			}),
+		})
+		lines := append(c.modelLines(), profLine)
+		pre := len(lines)
+		var gots []string
+		t0 := time.Now()
+		nev := 5 + rng.IntN(40)
+		dropped, served := 0, 0
+		for j := 0; j < nev; j++ {
+			ip := genAddr(rng)
+			if hasProf && rng.IntN(2) == 0 {
+				ip = profIP
+			}
+			qt := uint16(dns.TypeA)
+			if rng.IntN(10) == 0 {
+				qt = dns.TypeANY
+			}
+			respLen = 40 + rng.IntN(500)
+			srv, limited := srvDNS, true
+			if rng.IntN(8) == 0 {
+				srv, limited = srvDoT, false
+			}
+			now := spin()
+			out := st.Serve(ctx, &stack.Req{Server: srv, Msg: mkReq(qt), Remote: netip.AddrPortFrom(ip, 1234),
+				Local: netip.MustParseAddrPort("192.0.2.2:53")})
+			if out.Err != nil {
+				r.Disagree("mw-error", fmt.Sprintf("stack returned error %v", out.Err), lines)
+
+				break
+			}
+			got := "served"
+			if out.Resp == nil && respLen >= 0 {
+				got = "dropped"
+				dropped++
+			} else {
+				served++
+			}
+			lenArg := "-"
+			if respLen >= 0 {
+				// The limiter sees the message the next handler wrote.
+				lenArg = fmt.Sprint(mkResp(qt, respLen).Len())
+				if out.Resp != nil {
+					// The message the client gets is the one CountResponses saw.
+					lenArg = fmt.Sprint(out.Resp.Len())
+				}
+			} else if out.Resp == nil {
+				// Nothing written by the handler: a drop and a silent handler
+				// are indistinguishable to the client; compare via model.
+				got = "silent"
+			}
+			gots = append(gots, got)
+			// The transport layer hands the middleware an unmapped address
+			// (netutil.NetAddrToAddrPort).
+			eff := ip.Unmap()
+			isProf := hasProf && eff == profIP
+			lines = append(lines, fmt.Sprintf("mw %s %d %s %d %s %s", b2s(limited), now, addrArgs(eff), qt, lenArg, b2s(isProf)))
+		}
+		if time.Since(t0) > 400*time.Millisecond {
+			r.Count("mw.discarded_slow")
+
+			continue
+		}
+		answers := m.Batch(lines)[pre:]
+		for j := range gots {
+			want := answers[j]
+			if gots[j] == "silent" {
+				continue
+			}
+			if gots[j] != want {
+				r.Disagree("mw", fmt.Sprintf("stack=%s model=%s at step %d", gots[j], want, j),
+					map[string]any{"campaign": "mw", "ops": lines[:pre+j+1]})
+
+				break
+			}
+		}
+		r.Case(strings.Join(stripTimes(lines), ";"), dropped > 0 && served > 0)
+		r.Count("mw.cases")
+		if dropped > 0 && served > 0 {
+			r.Count("mw.mixed")
+			r.Sample(map[string]any{"campaign": "mw", "ops": truncate(lines, 8)}, 9)
+		}
+		r.Traces++
+	}
+}
+
+var errNotFound = profiledbNotFound()
